@@ -102,6 +102,8 @@ def run(repo, rep):
     _truth_rule(repo, rep, 'C15', 'C15.Z4')
     from ..api_pitfalls import attribute_rule as _attribute_rule
     _attribute_rule(repo, rep, 'C15', 'C15.Z5')
+    from ..api_pitfalls import pairing_rule as _pairing_rule
+    _pairing_rule(repo, rep, 'C15', 'C15.Z6')
     from ..pitfalls import zero_rule as _zero_rule
     _zero_rule(repo, rep, 'C15', 'C15.Z3')
     rep.rule('C15.V5', 'data sets and command sets are encoded into a buffer that is created in the call, or held per thread and emptied '
